@@ -28,13 +28,20 @@ MUTATIONS = [
     ("traverse-upper-bound-exclusive", TA, "            if y > end:\n                return\n            row.y = y", "            if y >= end and end > start:\n                return\n            row.y = y"),
     ("any-ignores-idx-for-str", CO, "        value_int = convert_coordinates(x)[idx]", "        value_int = convert_coordinates(x)[idx if len(x) < 4 else 0]"),
     ("nr-apostrophe-not-doubled", TA, "            return \"'\" + name.replace(\"'\", \"''\") + \"'\"", "            return \"'\" + name + \"'\""),
-    ("nr-quote-forgets-dollar", TA, "        if any(char in name for char in \" .'$\"):", "        if any(char in name for char in \" .'\"):"),
+    ("nr-quote-forgets-dot", TA, "        if any(char in name for char in \" .'$\"):", "        if any(char in name for char in \" '$\"):"),
     ("nr-reader-strips-dollar-in-name", TA, "        if address.startswith(\"$\"):\n            address = address[1:]", "        address = address.replace(\"$\", \"\")"),
     ("rename-only-first-range", TA, "        for named_range in self.get_named_ranges(table_name=self.name):\n            named_range.set_table_name(name)",
      "        for named_range in self.get_named_ranges(table_name=self.name)[:1]:\n            named_range.set_table_name(name)"),
     ("set-value-area-takes-end", TA, "        elif len(coord) == 4:\n            x, y, _z, _t = coord", "        elif len(coord) == 4:\n            _x, _y, x, y = coord"),
     ("delete-row-str-off-by-one", TA, "        y = self._translate_y_from_any(y)\n        # Outside the defined table\n        if y >= self.height:\n            return\n",
      "        y = self._translate_y_from_any(y) + (1 if isinstance(y, str) and self.height > 2 else 0)\n        # Outside the defined table\n        if y >= self.height:\n            return\n"),
+    # a repeated run at a boundary: only a range that starts inside a repeated column / cell run shows these
+    ("traverse-columns-start-inside-run", TA, "            idx = start_map - 1\n            before = start - 1\n            x = start\n            for juska in self._cmap[start_map:]:",
+     "            idx = start_map - 1\n            x = start\n            for juska in self._cmap[start_map:]:"),
+    ("row-traverse-start-inside-run", RO, "            idx = start_map - 1\n            before = start - 1\n            x = start\n            for juska in self._rmap[start_map:]:",
+     "            idx = start_map - 1\n            x = start\n            for juska in self._rmap[start_map:]:"),
+    # all forms agree and the result stays inside the range: only the comparison with the model's slice sees it
+    ("get-values-last-row-dropped", TA, "        data = []\n        for row in self.traverse(start=y, end=t):", "        data = []\n        for row in self.traverse(start=y, end=t - 1 if t else t):"),
     ("get-columns-f24-again", TA, "            x, _y, z, _t = self._translate_column_coordinates(coord)", "            x, _y, _z, z = self._translate_column_coordinates(coord)"),
 ]
 REWRITES = [
@@ -42,6 +49,8 @@ REWRITES = [
      "        digit, rest = divmod(digit - 1, 26)\n        column = chr(65 + rest) + column"),
     ("rw-increment-closed-form", CO, "    while value < 0:\n        if step == 0:\n            return 0\n        value += step\n    return value",
      "    if value >= 0:\n        return value\n    if step == 0:\n        return 0\n    return value % step"),
+    # with the repaired reader a '$' inside an unquoted name is harmless (only the leading one is dropped): only the exact text changes
+    ("rw-nr-quote-not-for-dollar", TA, "        if any(char in name for char in \" .'$\"):", "        if any(char in name for char in \" .'\"):"),
     ("rw-nr-quote-regex", TA, "        if any(char in name for char in \" .'$\"):", "        if re.search(r\"[ .'$]\", name):"),
     ("rw-cell-coords-locals", TA, "        if x and x < 0:\n            x = increment(x, self.width)\n        if y and y < 0:\n            y = increment(y, self.height)\n        return (x, y)",
      "        width, height = self.width, self.height\n        if x is not None and x < 0:\n            x = increment(x, width)\n        if y is not None and y < 0:\n            y = increment(y, height)\n        return (x, y)"),
